@@ -1356,6 +1356,52 @@ def q_c05(tr):
               ch, R, want, set(), "corner %r does not emit exactly its two half-segments" % ch, either=True)
 
 
+    # --- rounded box-drawing corners: close the outline and bulge outward -------------------
+    rr = {"╭": "tl", "╮": "tr", "╰": "bl", "╯": "br"}
+    URC = have(list(rr))
+    junction = {"left": k, "right": o, "top": c, "bottom": w}
+    for ch in URC:
+        hs, vs = roles[rr[ch]]
+        allowed = {n: [] for n in NEIGHBOURS}
+        allowed[hs] = H_UNI + UNI_C + URC
+        allowed[vs] = V_UNI + UNI_C + URC
+        R = restrict(m, allowed)
+        R += ["(not (= %s NONE))" % hs, "(not (= %s NONE))" % vs]
+        beh = m.behaviour(ch)
+
+        def reach(p):
+            return f_any(cond for cond, frs in beh
+                         if any(f[0] in ("line", "arc") and (f[1] == p or f[2] == p) for f in frs))
+        # every arc this cell can emit in the role must have its centre on the inner side of the corner:
+        # on the far side of its chord from the sharp-corner vertex (the cell centre m)
+        inward = []
+        extra = []
+        for cond, frs in beh:
+            for f in frs:
+                if f[0] == "arc":
+                    (cx, cy), r = arc_centre(f)
+                    midx, midy = float(f[1][0] + f[2][0]) / 2, float(f[1][1] + f[2][1]) / 2
+                    dotp = (float(mm[0]) - midx) * (cx - midx) + (float(mm[1]) - midy) * (cy - midy)
+                    if dotp >= -1e-12:
+                        inward.append(cond)
+                elif f[0] != "line":
+                    extra.append(cond)
+        viol = f_any([tables.f_not(reach(junction[hs])), tables.f_not(reach(junction[vs]))] + inward + extra)
+        name = "o5_t_rounded_%x_%s" % (ord(ch), rr[ch])
+        tr.decide(name, "O5.T",
+                  "rounded box-drawing corner %r in role %s: %s neighbour in %s, %s neighbour in %s, the rest blank or labels: "
+                  "the cell emits a line or arc ending at the junction with the horizontal edge and one ending at the junction "
+                  "with the vertical edge (closed outline), every arc has its SVG centre on the inner side of the corner "
+                  "(bulges outward), and nothing but lines and arcs is emitted"
+                  % (ch, rr[ch], hs, allowed[hs], vs, allowed[vs]),
+                  ch, R + [m.smt_formula(viol)],
+                  "rounded corner %r leaves the outline open or bulges inward" % ch)
+        res, _ = tr.solver.check(R, want_model=False)
+        tr.nq += 1
+        if res != "sat":
+            tr.add(name + "_witness", "O5.T", "vacuity witness", "inconclusive", reason="role unreachable")
+
+
 QUERIES["C05"] = q_c05
 PROPS.add("C05")
 
